@@ -15,7 +15,7 @@ P = {
  'C08': ("proof", "Verus proves the degenerate-window clauses: FastStochastic returns the literal 50, CCI the literal 0, ROC and TR exactly 0, and RSI/ER/MFI return a finite in-range neutral value when gains+losses / volatility / money flow are zero (the three guards added by fix: commits)", "7 C08", "Verus ens_degen clauses"),
  'C09': ("proof", "Verus proves SD, MAD >= 0; TR, ATR >= 0 for low<=high; Min <= input <= Max; lower <= average <= upper for BB and KC with multiplier >= 0; CE long <= window max, short >= window min; MACD/PPO histogram = line - signal; EMA within [lo,hi] of its inputs", "7 C09", "Verus range clauses"),
  'C10': ("proof", "Verus proves every Next<&T> impl of the close/low/high-only indicators satisfies, by definition of its contract, exactly the Next<f64> contract at the documented getter; contracts mention no other field, and the bodies are proved against them", "7 C10", "Verus: Next<&T> contract == Next<f64> contract at getter"),
- 'C11': ("proof", "Verus proves each new() returns Err(InvalidParameter) iff some period is 0 and otherwise Ok without arithmetic overflow for every period value, period()/multiplier() return the constructor arguments, these are framed through every next/reset, and default() equals new(documented defaults); Display text is not covered (format machinery is dropped by the extraction)", "7 C11", "Verus contracts on constructors/accessors"),
+ 'C11': ("proof", "Verus proves each new() returns Err(InvalidParameter) iff some period is 0 and otherwise Ok without arithmetic overflow for every period value, period()/multiplier() return the constructor arguments, these are framed through every next/reset, and default() equals new(documented defaults); Display text is outside Verus (the extraction drops the `write!` impls); the thorough tier checks it with Kani for one concrete documented parameter set per indicator (19 indicators; the three that print an f64 multiplier, BB/KC/CE, exceed CBMC's budget and stay uncovered)", "7 C11", "Verus contracts on constructors/accessors"),
  'C12': ("proof", "Verus proves absence of index-out-of-bounds, usize overflow and unwrap-on-None in new/next/reset/period/default for every input (preconditions are shape-only, so NaN/inf are allowed), every period and unboundedly many calls; clone/Debug/Display/serde are macro-generated code outside reach", "7 C12", "Verus built-in safety obligations under shape-only preconditions"),
  'C14': ("proof", "Spec-level lemmas proved by Verus: the spec functions the code is proved equal to (window mean, weighted mean, population variance, mean absolute deviation, EMA step, TrueRange, least/greatest element) scale with the price unit and shift with the offset exactly as the property states, and the dimensionless formulas (FastStochastic, ROC, MFI-type ratios) are invariant; Max(x) = -Min(-x). Paired with the value clauses that tie each indicator's code to those spec functions. Subset actually proved is listed in the evidence; SlowStochastic/PPO/CCI/ER/OBV composites and Keltner/Chandelier levels follow only by composition and have no dedicated lemma", "7 C14", "Verus spec-level covariance lemmas + functional contracts"),
  'C15': ("proof", "Verus verifies each composite against its parts' contracts only (modular), and the composite's value clause is literally the composition of the parts' public spec functions (BB.average = SMA spec, CCI = SMA/MAD spec of the typical price, ATR = EMA of TR, ...)", "7 C15", "Verus modular call-site reasoning"),
